@@ -36,10 +36,15 @@ def build_ticks(dts, ip_at=None, bd1=None):
     """update u (1-based) switches the back ladder: odd = liquid at 2.3, even = dry; every update also
     trades 0.8 at 2.2 (0.4 for a resting BACK 2.2)."""
     ticks = []
+    close_last = ip_at == "close-last"
     for n, dt in enumerate(dts):
         u = n + 1
+        if close_last and u == len(dts):
+            # the market's last update is its closure: a request whose time has come takes effect there
+            ticks.append([dt, ["CL", {1: "WINNER", 2: "LOSER"}]])
+            continue
         evs = [["B", 1, "atb", LIQ if liquid(u) else DRY], ["T", 1, [[2.2, 0.8], [1.6, 0.8]]]]
-        if ip_at is not None and u == ip_at:
+        if ip_at is not None and not close_last and u == ip_at:
             evs.append(["IP", {}, bd1])
         ticks.append([dt, ["M", evs]])
     return ticks
@@ -66,6 +71,9 @@ class Hooks:
 
     def orders(self, w, st, market, orders):
         self.clock.append(("process_orders", _dt.datetime.utcnow(), market.market_book.publish_time, market.market_id))
+
+    def closed_end(self, w, market, mb):
+        self.tick_end(w, market, mb)
 
     def tick_end(self, w, market, mb):
         if market.market_id != "1.100000001":
@@ -156,7 +164,7 @@ def _one(args):
             continue
         base = lat_cfg[{"place": "place_latency", "cancel": "cancel_latency", "update": "update_latency", "replace": "replace_latency"}[rk]]
         delays = {base + (bd0 if rk in ("place", "replace") else 0)}
-        changed = ip_at is not None and rk in ("place", "replace") and bd1 != bd0
+        changed = ip_at is not None and ip_at != "close-last" and rk in ("place", "replace") and bd1 != bd0
         # reference effect update(s)
         exp = set()
         for d in list(delays) + ([base + bd1] if changed else []):
@@ -335,6 +343,12 @@ def run(tier):
         for dts in itertools.product((19, 120, 121, 171, 281, 1000), repeat=n):
             for kind in KINDS[:4]:
                 jobs.append((dts, kind, "default", 0, None, None, True))
+    # the closing update as the (possible) effect update
+    for n in range(1, 3):
+        for dts in itertools.product((100, 121, 171, 281, 1000), repeat=n):
+            for kind in KINDS:
+                for lat in ("default", "zero"):
+                    jobs.append((dts, kind, lat, 0, "close-last", None, False))
     for r in core.pmap(_one, jobs):
         rep.add_violations(r["violations"])
         rep.merge_counts(r["counts"])
